@@ -70,6 +70,8 @@ func expand(s string) string {
 	}
 	s = strings.ReplaceAll(s, "@LONG70K@", long70k)
 	s = strings.ReplaceAll(s, "@LONG8K@", long8k)
+	s = strings.ReplaceAll(s, "@FF@", "\xff")
+	s = strings.ReplaceAll(s, "@FE@", "\xfe")
 	s = strings.ReplaceAll(s, "@ORIGIN_HOST@", originHost)
 	s = strings.ReplaceAll(s, "@ORIGIN_PORT@", originPort)
 	return s
@@ -369,6 +371,7 @@ func runHTTP(e *Exec) (ho httpObs, program string) {
 		dbg := &stepDebugger{budget: stepBudget}
 		it.Debugger = dbg
 		rec := httptest.NewRecorder()
+		method := req.Method // the program may rewrite req.method on this very object
 		p, msg, st := fw.Guard(func() { it.ServeHTTP(rec, req) })
 		if p {
 			if msg == sim.ErrStepBudget {
@@ -384,7 +387,7 @@ func runHTTP(e *Exec) (ho httpObs, program string) {
 		jsonErr := json.Unmarshal(body, &rp)
 		cls := ""
 		switch {
-		case req.Method == "FASTLYPURGE" && jsonErr == nil && (rec.Code == 200 || rec.Code == 400):
+		case method == "FASTLYPURGE" && jsonErr == nil && (rec.Code == 200 || rec.Code == 400):
 			cls = fmt.Sprintf("purge-%d", rec.Code)
 		case jsonErr == nil && rec.Code == 200 && rp.Error == "":
 			cls = "200-json"
